@@ -678,6 +678,13 @@ theorem xz_adjust_sound (b : Build) (c : Config) (hthr : 1 ≤ c.threads)
             exact ⟨rfl, fun _ => s5, by simp, Nat.le_refl _, hthr, s6, fun _ => ⟨0, by simp, s7⟩⟩
           · simp [hc] at h
 
+/-- `hardware_memlimit_get(mode)`: MODE_DECOMPRESS, MODE_TEST and MODE_LIST are all governed by --memlimit-decompress
+    (0 = no limit); only MODE_COMPRESS reads the compression limit. -/
+theorem hardware_memlimit_get_modes (mlc mld : Nat) (mode : Mode) :
+    hardwareMemlimitGet mode mlc mld
+      = (if mode = .compress then (if mlc ≠ 0 then mlc else UINT64_MAX) else (if mld ≠ 0 then mld else UINT64_MAX)) := by
+  cases mode <;> simp [hardwareMemlimitGet]
+
 /-! ## Non-vacuity -/
 
 /-- A valid chain with all four slots used; its estimate on this build. -/
